@@ -106,8 +106,8 @@ func (s sortedResources) Less(i, j int) bool {
 			return s.col[i].Get("id").(string) < s.col[j].Get("id").(string) != inverse
 		}
 
-		v := s.col[i].Get(r)
-		v2 := s.col[j].Get(r)
+		v := getAttrVal(s.col[i], r)
+		v2 := getAttrVal(s.col[j], r)
 
 		// Here we return true if v < v2.
 		// The "!= inverse" part acts as a XOR operation so that
